@@ -10,6 +10,7 @@ import Pcore.Proofs.FormatKeyLat
 import Pcore.Proofs.FormatXEmbed
 import Pcore.Generated.FormatLettersX
 import Pcore.Proofs.FormatLat
+import Pcore.Proofs.FormatMergeRefine
 /-!
 # C20 — String formatting is total and faithful to the format directive
 
@@ -89,7 +90,9 @@ Full statement / proved / missing
   whose names differ: `KeysLawful` — what the law really rests on; for parameterised keys this is the general lattice's business,
   C02 / C03), `C20_map_most_specific_default_types` / `C20_map_exact_key_any_kind` (the 22 default types of all kinds: the table is
   an instance, hypotheses by `decide`), `C20_map_most_specific_lattice` (keys = lattice types: the hypotheses are ONE boolean check
-  `lawfulb` evaluated on the keys of the map), witnessed on `{Scalar, Integer, Integer[0, 9]}`.
+  `lawfulb` evaluated on the keys of the map), witnessed on `{Scalar, Integer, Integer[0, 9]}`;
+  `C20_map_table_is_instance` (the 16-key model of `new(String, v, map)` above — `contextMap`, `mergeMaps`, `sortEntries` over the
+  table `Key.sub` — IS the general rule instantiated with the default types: entry by entry at every nesting level, hence the same text).
 * missing: the digits of `%e %f %g %a` (fmt/strconv float formatting is a parameter `FloatIO`; only the dispatch,
   the format string handed over, floatGFormat's fraction restoration and padNumber are modelled and compared);
   NaN/±Inf (not instances of Float in pcore: no Float format entry applies to them).
@@ -992,5 +995,18 @@ example (cfg : Pcore.Lat.Cfg) :
         revert hacc
         simp [latKeys, XVal.toLat, Pcore.Lat.ptype, kInt09, Pcore.Lat.asg, Pcore.Lat.asgRecv, Pcore.Lat.sameNullary, Pcore.Lat.Rng.sub,
           Pcore.Lat.Ty.isAny]
+
+/-- **the 16-key table is an instance of the general rule**: for a user map keyed by the 16 default types, the merged map that the
+    model of `Format.lean` builds (`contextMap`: `mergeMaps` / `sortEntries` over the table `Key.sub`) and the one the general
+    definitions build (`contextMapG` with the key order `xkeyOrd`) are the same entry by entry at every nesting level — and so is
+    the text of `new(String, v, map)` -/
+theorem C20_map_table_is_instance (io : FloatIO) (user : FMap) (user' : GMap XKey) (v : Val) (h : MapEq user user') :
+    formatX kindKeys io (contextMapG xkeyOrd .base user') v.x = format io (contextMap user) v :=
+  C20_x_refines io _ _ v (contextMap_eq h).toRel
+
+example : MapEq [(.arr, .mk (simpleFmt 'a') (some [(.int, .mk (simpleFmt 'x') none)])), (.scalar, .mk (simpleFmt 's') none)]
+    [(.base .arr, .mk (simpleFmt 'a') (some [(.base .int, .mk (simpleFmt 'x') none)])), (.base .scalar, .mk (simpleFmt 's') none)] :=
+  MapEq.cons _ _ _ _ _ (TreeEq.node _ _ _ (MapEq.cons _ _ _ _ _ (TreeEq.leaf _) MapEq.nil))
+    (MapEq.cons _ _ _ _ _ (TreeEq.leaf _) MapEq.nil)
 
 end Pcore.Format
